@@ -167,6 +167,12 @@ def rule_duration_formula(ctx, rule="R4", tab=None, adt=TT.TS):
                    "(must be delay + that)" % (terms.p_show(thr), terms.p_show(dur)), tab["body"]["span"],
                    what="end-threshold-differs-from-duration")
     ctx.floor(rule, "Ended rows with finite repeat", n, 2)
+    # fail closed: every finite repeat variant must be able to end (a variant without an Ended row never terminates)
+    ends_of = {r.repeat for r in tab["rows"] if r.kind == "Ended"}
+    for var in ("None", "Times"):
+        ctx.ob(rule, "ends/" + var, var in ends_of,
+               "a timeline with repeat = %s must end once the time since the delay exceeds its cycles: no Ended row for it"
+               % var, tab["body"]["span"], what="finite-repeat-never-ends")
     for r in tab["rows"]:
         if r.repeat == "Infinite":
             ctx.ob(rule, "never-ended/" + r.label, r.kind != "Ended", "an infinitely repeating timeline never ends",
@@ -354,6 +360,9 @@ def check(ctx):
     rule_one_clock(ctx, tab)
     rule_duration_formula(ctx, "R4", tab)
     rule_metadata(ctx, tab)
+    # after the end a reversing timeline rests at 0, any other at 1 (C02/R3)
+    from rules import c02
+    c02.rule_ended(ctx, tab, "R6")
     ctx.notes.append("not decided: linear rise and exact periodicity as numeric relations over all f32 times")
     ctx.assumptions += ["cycle duration D finite and > 0, time finite (valid configuration)",
                         "f32 division, remainder, subtraction are correctly rounded and monotone"]
